@@ -7,13 +7,15 @@ COMMON_ASSUMPTIONS = [
     "generated search samples the input space; it does not establish absence",
 ]
 
-def fam(prefix, small, blocks=None, wide=None, regress=True, extra=()):
+def fam(prefix, small, blocks=None, wide=None, regress=True, extra=(), mid=None):
     """tests of a property over the three scenario families: (quick, thorough) counts"""
     ts = [{"name": "Test%sSmall" % prefix, "quick": small[0], "thorough": small[1]}]
     if blocks:
         ts.append({"name": "Test%sBlocks" % prefix, "quick": blocks[0], "thorough": blocks[1], "min_per_shard": 20})
     if wide:
         ts.append({"name": "Test%sWide" % prefix, "quick": wide[0], "thorough": wide[1], "min_per_shard": 8})
+    if mid:
+        ts.append({"name": "Test%sMid" % prefix, "quick": mid[0], "thorough": mid[1]})
     if regress:
         ts.append({"name": "Test%sRegress" % prefix, "quick": 0})
     ts.extend(extra)
@@ -27,13 +29,14 @@ CHECKS = {
             {"name": "TestC01Small", "quick": 3000, "thorough": 576000},
             {"name": "TestC01Blocks", "quick": 40, "thorough": 7680},
             {"name": "TestC01Wide", "quick": 15, "thorough": 2880, "min_per_shard": 10},
+            {"name": "TestC01Mid", "quick": 1500, "thorough": 288000},
             {"name": "TestC01Regress", "quick": 0},
         ],
         "assumptions": COMMON_ASSUMPTIONS,
     },
     "C02": {
         "level": "exploration",
-        "tests": fam("C02", (2500, 480000), (25, 4800), (10, 1920), regress=False),
+        "tests": fam("C02", (2500, 480000), (25, 4800), (10, 1920), regress=False, mid=(1200, 230400)),
         "assumptions": COMMON_ASSUMPTIONS,
     },
     "C03": {
@@ -43,7 +46,7 @@ CHECKS = {
     },
     "C04": {
         "level": "exploration",
-        "tests": fam("C04", (2000, 384000), (20, 3840), (8, 1536)),
+        "tests": fam("C04", (2000, 384000), (20, 3840), (8, 1536), mid=(1000, 192000)),
         "assumptions": COMMON_ASSUMPTIONS,
     },
     "C06": {
@@ -64,17 +67,17 @@ CHECKS = {
     },
     "C11": {
         "level": "exploration",
-        "tests": fam("C11", (3000, 576000), (60, 11520)),
+        "tests": fam("C11", (3000, 576000), (60, 11520), mid=(1000, 192000)),
         "assumptions": COMMON_ASSUMPTIONS + ["the footer layout is taken from README.md"],
     },
     "C13": {
         "level": "exploration",
-        "tests": [{"name": "TestC13", "quick": 4000, "thorough": 768000}, {"name": "TestC13Regress", "quick": 0}],
+        "tests": [{"name": "TestC13", "quick": 4000, "thorough": 768000}, {"name": "TestC13Wide", "quick": 60, "thorough": 3840, "min_per_shard": 20}, {"name": "TestC13Regress", "quick": 0}],
         "assumptions": COMMON_ASSUMPTIONS + ["an object handed back as prealloc is dead afterwards (aliasing is the caller's responsibility)"],
     },
     "C16": {
         "level": "exploration",
-        "tests": [{"name": "TestC16Small", "quick": 4000, "thorough": 768000}, {"name": "TestC16Wide", "quick": 30, "thorough": 5760, "min_per_shard": 8},
+        "tests": [{"name": "TestC16Small", "quick": 4000, "thorough": 768000}, {"name": "TestC16Wide", "quick": 30, "thorough": 5760, "min_per_shard": 8}, {"name": "TestC16Mid", "quick": 1000, "thorough": 192000},
                   {"name": "TestC16Regress", "quick": 0}],
         "assumptions": COMMON_ASSUMPTIONS + ["reported field length equals the sum of the field's term frequencies (the property's stated domain)"],
     },
@@ -90,7 +93,7 @@ CHECKS = {
     },
     "C07": {
         "level": "exploration",
-        "tests": [{"name": "TestC07Small", "quick": 3000, "thorough": 576000}, {"name": "TestC07Wide", "quick": 150, "thorough": 28800}],
+        "tests": [{"name": "TestC07Small", "quick": 3000, "thorough": 576000}, {"name": "TestC07Wide", "quick": 150, "thorough": 28800}, {"name": "TestC07Mid", "quick": 1000, "thorough": 192000}],
         "assumptions": COMMON_ASSUMPTIONS + ["document numbers passed to VisitDocumentValues are < Count()"],
     },
     "C12": {
@@ -114,7 +117,7 @@ CHECKS = {
     "C19": {
         "level": "fault_enumeration",
         "tests": [{"name": "TestC19Small", "quick": 120, "thorough": 11520, "min_per_shard": 20}, {"name": "TestC19Blocks", "quick": 10, "thorough": 960, "min_per_shard": 5},
-                  {"name": "TestC19Regress", "quick": 0}],
+                  {"name": "TestC19Regress", "quick": 0}, {"name": "TestC19RegressRetry", "quick": 0}],
         "assumptions": ["storage faults are injected by swapping the unexported io.ReaderAt inside segment.Data (reflect+unsafe, self-tested at start-up) before ice.Load; every ReadAt from index k on fails",
                         "faults during ice.Load itself are not injected (Load is not a read call on a segment)",
                         "a call that does not return within 30 s is a violation only when its goroutine is blocked in sync.(*Mutex).Lock under an ice frame; anything else is reported as inconclusive",
